@@ -1,6 +1,6 @@
 ----------------------------- MODULE MC_DocGen -----------------------------
 EXTENDS DocGen
-FullLeaves == {"H1", "H2", "H3", "P", "P2", "Code", "CodeL", "Rule", "Tbl", "Html", "Ref"}
+FullLeaves == {"H1", "H2", "H3", "P", "P2", "Code", "CodeL", "CodeF", "Rule", "Tbl", "Html", "Ref"}
 StructLeaves == {"H1", "H2", "P"}
 HeadLeaves == {"H1", "H2", "H3", "H4", "H5", "H6", "P"}
 AllConts == {"Q", "BL", "OL"}
